@@ -384,7 +384,10 @@ func encrypt(o *engine.Outcome, op *engine.Op, f *engine.Fault, store map[int64]
 	}
 	// layout: eph(32) | nonce(12) | ct | tag(16)
 	if len(ct) != 32+12+len(plain)+16 {
-		o.Violate("C16/ciphertext-layout", "ciphertext is %d bytes for a %d-byte plaintext (expected %d)", len(ct), len(plain), 60+len(plain))
+		// the property does not fix the layout (a version byte or padding would
+		// be compatible with it); the region names of the corruption faults are
+		// then only approximate, the obligations stay the same
+		o.Probe("ciphertext_layout_differs_from_eph_nonce_ct_tag")
 	}
 	store[op.N[0]] = &stored{orig: append([]byte(nil), ct...), ct: ct, plain: plain, client: client, sigType: op.Shape.Sig}
 	o.FP.Step("encrypt", op.N[0], ct)
